@@ -606,6 +606,8 @@ def slerp(q0, q1, s, shortest=False):
     """
     if not 0 <= s <= 1:
         raise ValueError("s must be in the interval [0,1]")
+    if isinstance(s, np.floating):
+        s = float(s)  # (a NumPy float16 / float32 scalar would keep s * theta in its own precision)
     q0 = base.getvector(q0, 4)
     q1 = base.getvector(q1, 4)
 
